@@ -109,6 +109,18 @@ def gen(seed, tier):
         a = (v >> (nb - 32)) & 0xFFFFFF
         if a and not (nb == 56 and a < 128):
             hist(f, hx(v ^ a, nb))
+    # in the SAME reader run, right after a valid long frame of the same aircraft: a different frame of that aircraft (an
+    # identification squitter with a tell-tale callsign) hit by an error -- in particular in the first byte (bits 6-8) --
+    # must not be applied: the callsign stays blank
+    for k in range(24 if tier == "quick" else 240):
+        icao = r.choice(ICAOS)
+        df = r.choice([17, 17, 18])
+        a1 = g.f_df17(icao, g.me_airpos(), ca=5, df=df)
+        a2 = int(g.f_df17(icao, me_ident(4, 3, [ia5_code(c) for c in "TELLTALE"]), ca=5, df=df), 16)
+        bit = [6, 7, 8][k % 3] if k % 2 == 0 else r.randint(6, 112)
+        o = {"U": 1} if k % 4 < 2 else {}
+        cases.append(H("C04-t%d" % n, o, [seg(0, [a1, hx(a2 ^ (1 << (112 - bit)), 112)])]))
+        n += 1
     # bookkeeping: a failing frame must not tick the expiry sweep either -- stale rows (older than -d) stay while only
     # failing frames arrive, however many
     for i in range(6 if tier == "quick" else 60):
@@ -145,6 +157,13 @@ def gen(seed, tier):
 def oracle(parts, outcome, obs):
     if outcome.replace("+slow", "") != "ok":
         return "outcome %s" % outcome
+    if parts[0].startswith("C04-t"):
+        lines = pyspec.case_segments(parts)[0][1]
+        if pyspec.frame_of_line(lines[1]) is None:
+            for a, row in pyspec.rows_of(obs.split("#")[-1]).items():
+                if row.get("ais") not in ("-", None):
+                    return "a squitter with failing parity (%s), arriving right after a valid frame of the same aircraft, was applied: callsign %s" % (lines[1].decode(), row.get("ais"))
+        return None
     segs = pyspec.case_segments(parts)
     bad = segs[1][1][0]
     fr = None if all(pyspec.frame_of_line(x) is None for x in segs[1][1]) else "some line is a frame"
